@@ -89,8 +89,13 @@ def build_stack(w):
         cls = {"x": W.XTransformWrapper, "y": W.YTransformWrapper, "source": W.SourceTransformWrapper, "target": W.TargetTransformWrapper}[kind]
         ds = cls(base, transform=treg.build(w["t"]), seed=seed)
     elif kind == "multiview":
-        ds = W.KDMultiViewWrapper(base, configs=[(c["n_views"], PlainCallable() if c["t"] == "plain" else treg.build(c["t"]))
-                                                 for c in w["configs"]], seed=seed)
+        cfg_objs = [(c["n_views"], PlainCallable() if c["t"] == "plain" else treg.build(c["t"])) for c in w["configs"]]
+        ds = W.KDMultiViewWrapper(base, configs=cfg_objs, seed=seed)
+        ds.__dict__["_verif_cfg_objs"] = cfg_objs  # what the caller still holds
+    elif kind == "xy_shared":
+        # one transform object used for input and target with the same seed (consistent augmentation of x and y)
+        shared_t = treg.build(w["t"])
+        ds = W.XTransformWrapper(W.YTransformWrapper(base, transform=shared_t, seed=seed), transform=shared_t, seed=seed)
     elif kind == "mix":
         ds = W.KDMixWrapper(base, mixup_p=w["p"], mixup_alpha=w["alpha"], seed=seed)
     elif kind == "x_over_mix":
@@ -152,6 +157,8 @@ def check(spec):
         modes = {"it": "x", "class": "class", "xc": "x class", "cx": "class x"}
     elif w["kind"] == "semseg":
         modes = {"it": "x", "seg": "semseg", "xs": "x semseg", "sx": "semseg x"}
+    elif w["kind"] == "xy_shared":
+        modes = {"it": "x", "class": "y", "xc": "x y", "cx": "y x"}
     model = {}
     seq = []
     flags = set()
@@ -204,6 +211,24 @@ def check(spec):
         elif k == "perturb":
             _set_globals(op[1])
             flags.add("perturb")
+        elif k == "reuse":
+            # the caller builds a second wrapper from the very config objects it passed before (say, a weaker eval pipeline) and
+            # turns that one down: the first wrapper made its own copies and must not notice
+            import kappadata.wrappers as W2
+            top = ds
+            while not isinstance(top, W2.KDMultiViewWrapper) and hasattr(top, "dataset"):
+                top = top.dataset
+            objs = getattr(top, "__dict__", {}).get("_verif_cfg_objs")
+            if objs is not None:
+                second = W2.KDMultiViewWrapper(ImgRoot(w["n"], w["key"], w.get("fam", "img")), configs=objs, seed=op[1] % 1000)
+                for cfg in second.transform_configs:
+                    if hasattr(cfg.transform, "scale_strength"):
+                        try:
+                            cfg.transform.scale_strength(0.0)
+                        except AssertionError:
+                            pass
+                second.getitem_x(0)
+                flags.add("reuse")
         elif k == "rebuild":
             _set_globals(op[1])
             ds = build_stack(w)
@@ -238,7 +263,7 @@ def check(spec):
                 evals += 1
     repeated = len(set(seq)) < len(seq)
     nonmono = any(b < a for a, b in zip(seq, seq[1:]))
-    composite = w["kind"] not in ("x", "y", "source", "target") or treg.is_composite(w["t"])
+    composite = w["kind"] not in ("x", "y", "source", "target", "xy_shared") or treg.is_composite(w["t"])
     if w["kind"] == "multiview":
         composite = True
     nt = repeated and nonmono and bool(flags & {"perturb", "rebuild", "loader"})
@@ -292,7 +317,7 @@ SEMSEG_T = st.lists(st.sampled_from([
 
 @st.composite
 def wrapper_spec(draw, tier):
-    kind = draw(st.sampled_from(["x", "x", "x", "y", "source", "target", "multiview", "multiview", "mix", "mix", "semseg", "semseg", "x_over_mix",
+    kind = draw(st.sampled_from(["x", "x", "x", "y", "source", "target", "multiview", "multiview", "mix", "mix", "semseg", "semseg", "x_over_mix", "xy_shared",
                                  "minaug_x", "minaug_mv"] + (["byol", "mugs"] if tier == "thorough" else [])))
     w = {"kind": kind, "n": draw(st.integers(2, 7)), "key": draw(st.integers(0, 99)), "seed": draw(st.integers(0, 2 ** 31)),
          "pos": draw(st.sampled_from(["top", "under_pass", "over_subset", "under_subset"]))}
@@ -304,6 +329,9 @@ def wrapper_spec(draw, tier):
                 for _ in range(draw(st.integers(1, 3)))]
         w["configs"] = cfgs
         w["fam"] = "img3" if any(c["t"] != "plain" and treg.family(c["t"]) == "img3" for c in cfgs) else "img"
+    elif kind == "xy_shared":
+        w["t"] = draw(NOSCHED)
+        w["fam"] = treg.family(w["t"])
     elif kind == "x_over_mix":
         w["pos"] = draw(st.sampled_from(["top", "over_subset"]))
         w["p"] = draw(st.sampled_from([1.0, 0.5]))
@@ -326,12 +354,12 @@ def wrapper_spec(draw, tier):
 
 @st.composite
 def op(draw, tier, tensor_out):
-    k = draw(st.sampled_from(["get", "get", "get", "get", "many", "perturb", "rebuild"] + (["loader"] if tensor_out else [])))
+    k = draw(st.sampled_from(["get", "get", "get", "get", "many", "perturb", "rebuild", "reuse"] + (["loader"] if tensor_out else [])))
     if k == "get":
         return ["get", draw(st.integers(0, 20)), draw(st.sampled_from(["it", "it", "class", "xc", "cx", "seg", "xs", "sx"]))]
     if k == "many":
         return ["many", draw(st.lists(st.integers(0, 20), min_size=1, max_size=4))]
-    if k in ("perturb", "rebuild"):
+    if k in ("perturb", "rebuild", "reuse"):
         return [k, draw(st.integers(0, 2 ** 20))]
     nw = draw(st.sampled_from([0, 0, 2, 3])) if tier == "thorough" else draw(st.sampled_from([0, 0, 0, 2]))
     return ["loader", nw, draw(st.integers(1, 4)), draw(st.integers(0, 99))]
